@@ -84,11 +84,12 @@ theorem tree_ok_iff_isoValid {U : Unicode} {T : Table} (hU : U.WF) (hT : T.WF) {
     obtain ⟨a, b, d1, d2, rest, rfl⟩ := list_ge4 (prefixOk_length hp)
     have heT := (Table.lookup_mem hl).1
     have hW := hT e heT
-    obtain ⟨l, hps, hpat', hexp⟩ := hW.spec
+    obtain ⟨l, items', hps, hpat', hmatch, hexp⟩ := hW.spec
     simp only [List.take_succ_cons, List.take_zero, List.drop_succ_cons, List.drop_zero] at *
     rw [hpat'] at hpat
-    have hitems : items = l.map itemOf := (Option.some.inj hpat).symm
+    have hitems : items = items' := (Option.some.inj hpat).symm
     subst hitems
+    rw [hmatch] at hm
     simp only [prefixOk, Bool.and_eq_true] at hp
     simp only [allAlnum_append, Bool.and_eq_true] at hA
     have hArest := hA.1
@@ -126,7 +127,7 @@ theorem tree_ok_iff_isoValid {U : Unicode} {T : Table} (hU : U.WF) (hT : T.WF) {
       obtain ⟨a, b, d1, d2, rest, rfl⟩ := list_ge4 h4
       have ⟨heT, hcode⟩ := Table.lookup_mem hl
       have hW := hT e heT
-      obtain ⟨l, hps, hpat', hexp⟩ := hW.spec
+      obtain ⟨l, items', hps, hpat', hmatch, hexp⟩ := hW.spec
       obtain ⟨a', b', hcd, hua, hub⟩ := hW.code
       simp only [List.take_succ_cons, List.take_zero, List.drop_succ_cons, List.drop_zero,
         List.getD_cons_succ, List.getD_cons_zero, List.length_cons] at *
@@ -150,8 +151,9 @@ theorem tree_ok_iff_isoValid {U : Unicode} {T : Table} (hU : U.WF) (hT : T.WF) {
         simp only [List.length_append, List.length_cons, List.length_nil] at h1
         omega
       refine ⟨by simp [prefixOk, hua, hub, hdig1, hdig2], e, rfl, by have := hW.ibanLen; omega,
-        l.map itemOf, hpat', ?_, hA, hnl, hmod, ?_⟩
-      · exact (matchItems_spec U l rest).mpr (Or.inl (fitsRe_of_fitsClasses hU _ _ hfit))
+        items', hpat', ?_, hA, hnl, hmod, ?_⟩
+      · rw [hmatch]
+        exact (matchItems_spec U l rest).mpr (Or.inl (fitsRe_of_fitsClasses hU _ _ hfit))
       · -- the given digits are the computed ones
         have e1 : rest ++ [a', b', d1, d2] = (rest ++ [a', b']) ++ [d1, d2] := by simp
         rw [e1, numVal_append, numVal_two_digits hg2 hg3] at hmod
